@@ -18,6 +18,12 @@ Three layers:
   3. Product Scrambler -> Descrambler with the words scrambled under `hold` taken out of the stream (that is what the
      transmit CTC does with them: it sends SKPs in their place, which the receiver's CTC removes again): both LFSRs stay
      equal for ever and the descrambler's output is the scrambler's input.
+  4. Caller side (end of file): call obligations on the real USB3PhysicalLayer (open PIPE interface, all interface signals free
+     inputs, children located by class): transmit chain  sink -> Scrambler -> CTCSkipInserter  with hold = sending_skip, enable =
+     enable_scrambling, clear never raised; receive chain  RxWordAligner -> Descrambler -> RxPacketAligner -> source  (the
+     descrambler sees exactly the word-aligned stream, is never stalled, never held / cleared); both instances are the
+     initial_value = 0xFFFF configuration proved in 2. and 3.  PhysicalLayerUnits and the lemmas_* helpers are shared with
+     C32 / C34 / C42 / C43 (the transmit side from the inserter to the PHY pins is in c33.physical_layer_wiring).
 """
 import z3
 from hwv.contract import B, bvc, bits, zx
@@ -199,6 +205,168 @@ def make_roundtrip(init):
     return contract
 
 
+# ------------------------------------------------------------------------------------------------ 4. caller side
+# The unit contracts above cut the design at the Scrambler / Descrambler ports and treat the far side as free inputs.
+# USB3PhysicalLayer.elaborate() is the code that instantiates and connects them (and the CTC stages, the two aligners and the
+# LFPS transceiver); nothing above says how.  The call obligations below are stated on the netlist of the REAL parent: it is
+# elaborated with an open PIPEInterface (a plain bundle of signals: no PHY model, no vendor primitive), every signal of the
+# PIPE interface and of the layer's own interface is a port (a free input unless the layer drives it), the real child
+# instances are located by class (ts.instances; not by m.submodules name, so renaming an entry is harmless) and each lemma is
+# a valid formula over ALL states of all children and all input values.  Shared with C32 / C34 / C42 (import).
+WORD = ("valid", "payload", "ctrl")            # what the raw stages look at (first / last are not used on raw streams)
+
+
+class PhysicalLayerUnits:
+    """The real USB3PhysicalLayer (open PIPE interface) and the real sub-unit instances its elaborate() created."""
+    def __init__(self, c, sync_frequency=1e6):
+        from hwv.extract import BindingError
+        from luna.gateware.interface.pipe import PIPEInterface
+        from luna.gateware.usb.usb3.physical.layer import USB3PhysicalLayer
+        from luna.gateware.usb.usb3.physical.ctc import CTCSkipInserter, CTCSkipRemover
+        from luna.gateware.usb.usb3.physical.alignment import RxWordAligner, RxPacketAligner
+        from luna.gateware.usb.usb3.physical.lfps import LFPSTransceiver, LFPSDetector, LFPSGenerator
+        from .c46_ss_in_endpoint import signals_of, same
+        self.pipe = pipe = PIPEInterface(width=4)
+        self.d = d = USB3PhysicalLayer(phy=pipe, sync_frequency=sync_frequency)
+        ports = {(k + "_pin" if k.endswith(("_clk", "_rst")) else k): v for k, v in signals_of(pipe, "pipe_").items()}   # (not clock domains)
+        ports.update(signals_of(d, "pl_"))
+        self.ts = ts = c.unit(d, ports)
+        self.of = ts.of
+
+        def one(cls):
+            objs = [x for x in ts.instances(cls) if type(x) is cls]          # (Descrambler is a subclass of Scrambler)
+            if len(objs) != 1:
+                raise BindingError(f"expected exactly one {cls.__name__} in USB3PhysicalLayer, found {len(objs)}")
+            return objs[0]
+        self.scr, self.des = one(Scrambler), one(Descrambler)
+        self.tx_ctc, self.rx_ctc = one(CTCSkipInserter), one(CTCSkipRemover)
+        self.aligner, self.realigner = one(RxWordAligner), one(RxPacketAligner)
+        self.lfps = one(LFPSTransceiver)
+        self.detectors = [x for x in ts.instances(LFPSDetector) if type(x) is LFPSDetector]
+        self.generators = [x for x in ts.instances(LFPSGenerator) if type(x) is LFPSGenerator]
+        self.S = lambda a, b: same(ts, a, b)
+        c.cosim_cycles = 8
+
+    def feeds(self, producer, consumer, fields=WORD):
+        """consumer stream is the producer stream: valid, data, ctrl forward; ready back"""
+        return z3.And(*[self.S(getattr(consumer, f), getattr(producer, f)) for f in fields], self.S(producer.ready, consumer.ready))
+
+    def tapped(self, tap, producer, fields=WORD):
+        """read-only view: valid, data, ctrl (the tap's ready goes nowhere)"""
+        return z3.And(*[self.S(getattr(tap, f), getattr(producer, f)) for f in fields])
+
+    def shows(self, out, sig):
+        """output `out` shows `sig` without truncation: at least as wide, equal to it zero-extended"""
+        a, b = self.of(out), self.of(sig)
+        return z3.BoolVal(False) if a.size() < b.size() else a == zx(b, a.size())
+
+    def is_zero(self, sig):
+        """`sig` is never raised: constant 0 for all states and inputs (an input the parent leaves unconnected)"""
+        from hwv.extract import BindingError
+        try:
+            return self.of(sig) == 0
+        except BindingError:               # nothing reads it
+            return z3.BoolVal(True)
+
+
+def lemmas_scrambler_hookup(c, U):
+    """Transmit side: link layer stream -> Scrambler -> CTCSkipInserter; enable / clear / hold."""
+    of, S, d, scr, ctc = U.of, U.S, U.d, U.scr, U.tx_ctc
+    c.lemma("scrambler_input_is_the_link_layer_stream",
+            z3.And(S(scr.sink.payload, d.sink.payload), S(scr.sink.ctrl, d.sink.ctrl), of(scr.sink.valid) == 1, S(d.sink.ready, scr.sink.ready)),
+            clause="data symbols are XORed with the keystream, control symbols pass unchanged: the scrambler works on the link layer's words "
+                   "(data, ctrl; always valid - the link layer sends logical idle when it has nothing else; ready back)")
+    c.lemma("scrambler_enable_is_layer_enable_and_clear_is_never_raised", z3.And(S(scr.enable, d.enable_scrambling), U.is_zero(scr.clear)),
+            clause="restarts after a COM in a word's first symbol (and only then: `clear` is not driven); scrambling on/off is the layer's "
+                   "enable_scrambling (LTSSM)")
+    c.lemma("scrambler_hold_is_skip_inserter_sending_skip", S(scr.hold, ctc.sending_skip),
+            clause="the keystream advances only when a word is actually transferred (not while held for SKP insertion): Scrambler.hold is "
+                   "CTCSkipInserter.sending_skip in the same cycle")
+    c.lemma("scrambler_output_is_what_the_skip_inserter_transmits", U.feeds(scr.source, ctc.sink),
+            clause="what is transmitted is the scrambled stream: CTCSkipInserter.sink is Scrambler.source (valid, data, ctrl; ready back, so "
+                   "'transferred' means the same at both)")
+
+
+def lemmas_descrambler_hookup(c, U):
+    """Receive side: RxWordAligner -> Descrambler -> RxPacketAligner; enable / clear / hold / never stalled."""
+    of, S, d, des = U.of, U.S, U.d, U.des
+    c.lemma("descrambler_input_is_the_word_aligned_stream", U.feeds(U.aligner.source, des.sink),
+            clause="descrambling a scrambled stream from the same starting state returns the original stream: the descrambler sees exactly "
+                   "the RxWordAligner's output (valid, data, ctrl) - words grouped the way the partner's COMs grouped them, so that the "
+                   "keystream byte lanes line up and a COM restarts the keystream in a word's first symbol")
+    c.lemma("descrambler_enable_is_layer_enable_and_clear_hold_are_never_raised",
+            z3.And(S(des.enable, d.enable_scrambling), U.is_zero(des.clear), U.is_zero(des.hold)),
+            clause="(round trip requires descrambler_never_held / restarted_together) the receive side has no SKP insertion and no explicit "
+                   "restart; descrambling on/off is the same enable_scrambling the scrambler gets")
+    c.lemma("descrambler_is_never_stalled", z3.Implies(of(des.sink.valid) == 1, of(des.source.ready) == 1),
+            clause="the keystream advances ... when a word is actually transferred: every word the aligner delivers IS transferred (the "
+                   "partner's scrambler cannot be stalled from here, so a stalled word would desynchronise the keystreams) - whatever the "
+                   "link layer does with source.ready")
+    c.lemma("descrambler_output_is_what_goes_on", U.feeds(des.source, U.realigner.sink),
+            clause="the descrambled stream is what the rest of the receive path gets: RxPacketAligner.sink is Descrambler.source")
+
+
+def lemmas_receive_chain_tail(c, U):
+    """RxPacketAligner -> layer source."""
+    c.lemma("layer_source_is_the_packet_aligner_output", U.tapped(U.d.source, U.realigner.source),
+            clause="the link layer receives the descrambled, packet-aligned stream: USB3PhysicalLayer.source is RxPacketAligner.source (valid, data, ctrl)")
+
+
+def lemmas_receive_chain_head(c, U):
+    """PHY rx data -> CTCSkipRemover -> RxWordAligner (-> raw_source)."""
+    of, S, d, pipe, rx, al = U.of, U.S, U.d, U.pipe, U.rx_ctc, U.aligner
+    c.lemma("skip_remover_input_is_the_phy_receive_word",
+            z3.And(S(rx.sink.payload, pipe.rx_data), S(rx.sink.ctrl, pipe.rx_datak), of(rx.sink.valid) == 1),
+            clause="the input symbol sequence is what the PHY received: CTCSkipRemover.sink is rx_data / rx_datak, a word every cycle")
+    c.lemma("skip_remover_downstream_is_always_ready", of(rx.source.ready) == 1,
+            clause="with the downstream always ready, as it is wired in the physical layer (discharges the unit contract's require)")
+    c.lemma("word_aligner_input_is_the_skip_remover_output", U.feeds(rx.source, al.sink),
+            clause="the aligner works on the SKP-free stream: RxWordAligner.sink is CTCSkipRemover.source (valid, data, ctrl; ready back)")
+    c.lemma("raw_source_is_the_word_aligner_output", U.tapped(d.raw_source, al.source),
+            clause="the training-set detectors' stream (raw_source: never descrambled) is the RxWordAligner's output")
+
+
+SCR_IN = {"clear": "clear", "enable": "enable", "hold": "hold", "sink_payload": "sink.payload", "sink_ctrl": "sink.ctrl",
+          "sink_valid": "sink.valid", "source_ready": "source.ready"}
+SCR_OUT = {"source_payload": "source.payload", "source_ctrl": "source.ctrl", "source_valid": "source.valid", "sink_ready": "sink.ready",
+           "lfsr_state": "lfsr_state"}
+
+
+def _flat_ports(obj, table):
+    """give the stream fields flat attribute names (c46.instance_is_contracted_unit addresses ports by attribute name)"""
+    for flat, dotted in table.items():
+        x = obj
+        for part in dotted.split("."):
+            x = getattr(x, part)
+        setattr(obj, "w_" + flat, x)
+    return ["w_" + flat for flat in table]
+
+
+def lemmas_instance_is_contracted(c, U, inst, init, label):
+    """the (de)scrambler instance of the layer is the configuration contracted above: same class, initial value `init`"""
+    from .c46_ss_in_endpoint import instance_is_contracted_unit, path_of
+    cls = type(inst)
+    ref = cls(initial_value=init)
+    ins, outs = _flat_ports(ref, SCR_IN), _flat_ports(ref, SCR_OUT)
+    _flat_ports(inst, SCR_IN), _flat_ports(inst, SCR_OUT)
+    instance_is_contracted_unit(c, U.ts, path_of(U.ts, inst), inst, ref, ins, outs, label,
+                                clause=f"from the same starting state: the layer's {cls.__name__} is {cls.__name__}(initial_value={init:#06x}), "
+                                       f"the configuration proved by the unit and round-trip contracts")
+
+
+def physical_layer_wiring(c):
+    """USB3PhysicalLayer.elaborate(): the transmit chain sink -> Scrambler -> CTCSkipInserter and the receive chain
+    RxWordAligner -> Descrambler -> RxPacketAligner -> source, as the unit and round-trip contracts assume."""
+    U = PhysicalLayerUnits(c)
+    lemmas_scrambler_hookup(c, U)
+    lemmas_descrambler_hookup(c, U)
+    lemmas_receive_chain_tail(c, U)
+    c.lemma("word_aligner_input_is_the_skip_remover_output", U.feeds(U.rx_ctc.source, U.aligner.sink),
+            clause="'word-aligned': the aligner in front of the descrambler works on the PHY's SKP-free receive stream")
+    lemmas_instance_is_contracted(c, U, U.scr, 0xFFFF, "scrambler_ref")
+    lemmas_instance_is_contracted(c, U, U.des, 0xFFFF, "descrambler_ref")
+
+
 def contracts(tier):
     quick = tier == "quick"
     inits = [0xFFFF, 0x7DBD] if quick else [0xFFFF, 0x7DBD, 0x0001, 0x8000, 0xA5A5, 0x1234]     # (0x0000 is the LFSR fixed point: keystream never moves, covers vacuous)
@@ -211,3 +379,4 @@ def contracts(tier):
     for iv in inits:
         if not quick or iv == 0xFFFF:
             yield ("Scrambler->Descrambler", f"init_{iv:04x}", make_roundtrip(iv))
+    yield ("USB3PhysicalLayer", "wiring_scrambling", physical_layer_wiring)
